@@ -636,6 +636,32 @@ def h_traj_outputs(case):
                             "dims_before": list(dims0), "dims_after": list(dims1), **ctx})
         except Exception as e:
             bad.append({"what": "after editing the system of the script stored in a trajectory the accessors raise", "error": "%s: %s" % (type(e).__name__, e), **ctx})
+    # a trajectory whose own system is not its script's system (what un-coarse-graining produces: data on the full space, script of
+    # the coarse run) written to a file and read back: the loaded trajectory is still laid out on ITS system
+    if C >= 2 and idx % 3 == 0:
+        small = st.RDSystem(net, st.RDGridSpace(w=1, h=1, d=1), state=[0.0] * S)
+        scr2 = st.RDScript(small, t_sample=[float(i) for i in range(N)], time_step=0.5)
+        tk = st.RDTrajectory(st.UnitArray(data.copy(), unit), st.UnitArray([float(i) for i in range(N)], "s"), system=system, script=scr2)
+        os.makedirs(SCRATCH, exist_ok=True)
+        root = tempfile.mkdtemp(prefix="htraj-", dir=SCRATCH)
+        try:
+            for sep in (False, True):
+                pth = os.path.join(root, "tr_%d.json" % int(sep))
+                st.save_rdtrajectory(tk, pth, separate_data=sep)
+                lk = st.load_rdtrajectory(pth)
+                counts["loaded_trajectory_layout_checks"] = counts.get("loaded_trajectory_layout_checks", 0) + 1
+                try:
+                    ok = (lk.nsamples(), lk.nspecies(), lk.ncells()) == (N, S, C) and \
+                        np.allclose(np.array(lk.get_state(None, N - 1).convert(unit).value), data.reshape(N, S * C)[N - 1], rtol=1e-12, atol=0) and \
+                        abs(float(lk.get_trajectory_point(labels[-1], 0, C - 1).convert(unit).value) - D3[0, S - 1, C - 1]) <= 1e-12 * abs(D3[0, S - 1, C - 1])
+                except Exception as e:
+                    ok = False
+                if not ok:
+                    bad.append({"what": "a saved and re-loaded trajectory whose system differs from its script's system is no longer laid out on its own system",
+                                "separate_data": sep, "shape_expected": [N, S, C], **ctx})
+                    break
+        finally:
+            shutil.rmtree(root, ignore_errors=True)
     return {"bad": bad[:2], "counts": counts, "key": chash([N, S, C, cgmap, unit, idx]), "nontrivial": S * C * N >= 2, "sample": None}
 
 
